@@ -111,6 +111,13 @@ func genHMsg(t *rapid.T, l string, types []byte) HMsg {
 		}
 	}
 	body := "{" + strings.Join(parts, ",") + "}"
+	if ty == 'p' && rapid.IntRange(0, 2).Draw(t, l+"/plausible") == 0 {
+		// a registration that passes validation for its type (whatever listeners the server runs or does not run)
+		pt := rapid.SampledFrom([]string{"tcp", "udp", "http", "https", "tcpmux", "stcp", "sudp", "xtcp"}).Draw(t, l+"/ptype")
+		n := rapid.IntRange(0, 3).Draw(t, l+"/pn")
+		body = fmt.Sprintf(`{"proxy_name":"hp-%s-%d","proxy_type":%q,"custom_domains":["h%d.%s.test"],"multiplexer":"httpconnect","sk":"k","remote_port":0,"group":%q,"group_key":"k"}`,
+			pt, n, pt, n, pt, rapid.SampledFrom([]string{"", "", "g"}).Draw(t, l+"/pgroup"))
+	}
 	if rapid.IntRange(0, 15).Draw(t, l+"/garbage") == 0 {
 		body = rapid.SampledFrom([]string{"", "{", "null", "[]", `{"a":`, strings.Repeat("[", 5000), `"x"`, "\xff\xfe"}).Draw(t, l+"/gb")
 	}
@@ -139,13 +146,14 @@ type SCase struct {
 	TCPMux bool   `json:"tcpmux"`
 	Peers  []Peer `json:"peers"`
 	Users  int    `json:"users"` // garbage user connections on the vhost / proxy ports
+	Without int   `json:"without"` // optional listeners the server does NOT run (bit 0 vhost http, 1 vhost https, 2 tcpmux)
 }
 
 var controlTypes = []byte{'p', 'c', 'h', 'i', 'n', '6', 'p', 'p', 'i', 'n', 'r', 's', 'u', '1', '2', '4', 'm', '5', 'w', 'v', 'o'}
 var firstTypes = []byte{'o', 'o', 'w', 'v', 'p', 'h', 'u', 'r', 's', 'i', '1'}
 
 func genS(t *rapid.T) SCase {
-	c := SCase{TCPMux: rapid.Bool().Draw(t, "tcpmux"), Users: rapid.IntRange(0, 4).Draw(t, "users")}
+	c := SCase{TCPMux: rapid.Bool().Draw(t, "tcpmux"), Users: rapid.IntRange(0, 4).Draw(t, "users"), Without: rapid.SampledFrom([]int{0, 0, 0, 1, 2, 4, 3, 6, 7}).Draw(t, "without")}
 	n := rapid.IntRange(1, 6).Draw(t, "npeers")
 	for i := 0; i < n; i++ {
 		l := fmt.Sprintf("peer%d", i)
@@ -168,9 +176,27 @@ func genS(t *rapid.T) SCase {
 	return c
 }
 
+// lockedBuffer collects the child's output; the exec package writes to it from its own goroutine.
+type lockedBuffer struct {
+	mu sync.Mutex
+	b  bytes.Buffer
+}
+
+func (l *lockedBuffer) Write(p []byte) (int, error) {
+	l.mu.Lock()
+	defer l.mu.Unlock()
+	return l.b.Write(p)
+}
+
+func (l *lockedBuffer) String() string {
+	l.mu.Lock()
+	defer l.mu.Unlock()
+	return l.b.String()
+}
+
 type child struct {
 	cmd    *exec.Cmd
-	stderr *bytes.Buffer
+	stderr *lockedBuffer
 	dir    string
 	done   chan struct{}
 	mu     sync.Mutex
@@ -182,7 +208,7 @@ func startChild(bin, conf string) (*child, error) {
 	_ = os.WriteFile(cf, []byte(conf), 0o644)
 	cmd := exec.Command(bin, "-c", cf)
 	cmd.Dir = dir
-	var buf bytes.Buffer
+	var buf lockedBuffer
 	cmd.Stderr = &buf
 	cmd.Stdout = &buf
 	if err := cmd.Start(); err != nil {
@@ -233,6 +259,20 @@ func (c *child) crashText() string {
 	return ""
 }
 
+// serverConfWithout is serverConf with some of the optional listeners left out (bit 0: vhost http, bit 1: vhost https,
+// bit 2: tcpmux): messages that need a listener the server does not run must be refused, not crash it.
+func serverConfWithout(b *fx.Block, tcpmux bool, without int) string {
+	conf := serverConf(b, tcpmux)
+	var out []string
+	for _, l := range strings.Split(conf, "\n") {
+		if (without&1 != 0 && strings.HasPrefix(l, "vhostHTTPPort")) || (without&2 != 0 && strings.HasPrefix(l, "vhostHTTPSPort")) || (without&4 != 0 && strings.HasPrefix(l, "tcpmuxHTTPConnectPort")) {
+			continue
+		}
+		out = append(out, l)
+	}
+	return strings.Join(out, "\n")
+}
+
 func serverConf(b *fx.Block, tcpmux bool) string {
 	return fmt.Sprintf(`bindAddr = "127.0.0.1"
 bindPort = %d
@@ -256,7 +296,7 @@ func runS(c SCase) error {
 		return fx.Inconclusive("%v", err)
 	}
 	defer blk.Release()
-	ch, err := startChild(frpsBin, serverConf(blk, c.TCPMux))
+	ch, err := startChild(frpsBin, serverConfWithout(blk, c.TCPMux, c.Without))
 	if err != nil {
 		return fx.Inconclusive("start frps: %v", err)
 	}
